@@ -164,7 +164,8 @@ def c20_run(c):
 
     def build(i):
         name, feats = cfgs[i]
-        tdir = os.path.join(c["build"], ("alt-" if c["repo"] != "/repo" else "") + "cargo-c20-%d" % i)
+        tdir = (os.path.join(c["build"], "alt-" + hashlib.sha1(c["repo"].encode()).hexdigest()[:8], "cargo-c20-%d" % i)
+                if c["repo"] != "/repo" else os.path.join(c["build"], "cargo-c20-%d" % i))
         r = subprocess.run(["cargo", "build", "--release", "--offline"] + feats, cwd=src, stdout=subprocess.PIPE, stderr=subprocess.STDOUT,
                            text=True, env=dict(os.environ, CARGO_NET_OFFLINE="true", CARGO_TARGET_DIR=tdir), timeout=3000)
         if r.returncode != 0:
